@@ -86,6 +86,8 @@ def build_filter(f):
             )
         elif t == "CustomFilter":
             out[id(node)] = ct.CustomFilter(value=node["value"])
+        elif t == "EdgeFilter":
+            out[id(node)] = ct.EDGE_FILTERS[int(node["n"])](value=node["value"])
         else:
             raise ValueError("unknown abstract filter %r" % t)
     return out[id(f)]
@@ -120,6 +122,8 @@ def build_auth(a):
         return sansldap.SaslCredential(mechanism=a["mechanism"], credentials=_bx(a["credentials"]))
     if t == "CustomAuth":
         return ct.CustomAuth(username=a["username"], password=a["password"])
+    if t == "EdgeAuth":
+        return ct.EDGE_AUTHS[int(a["n"])](token=_bx(a["token"]))
     raise ValueError("unknown abstract credential %r" % t)
 
 
@@ -305,6 +309,8 @@ def canon_filter(f):
                              "dn_attributes": bool(node.dn_attributes)}
         elif name == "CustomFilter":
             out[id(node)] = {"t": "CustomFilter", "value": node.value}
+        elif name.startswith("EdgeFilter"):
+            out[id(node)] = {"t": "EdgeFilter", "n": int(node.filter_id), "value": node.value}
         else:
             out[id(node)] = {"t": "?" + name, "repr": _generic(node)}
     return out[id(f)]
@@ -347,6 +353,8 @@ def canon_auth(a):
         return {"t": "Sasl", "mechanism": a.mechanism, "credentials": _hx(a.credentials)}
     if name == "CustomAuth":
         return {"t": "CustomAuth", "username": a.username, "password": a.password}
+    if name.startswith("EdgeAuth"):
+        return {"t": "EdgeAuth", "n": int(a.auth_id), "token": _hx(a.token)}
     return {"t": "?" + name, "repr": _generic(a)}
 
 
@@ -419,7 +427,7 @@ MAGIC = [bytes.fromhex("160301020001000200"), bytes.fromhex("1603"), b"GET / HTT
          bytes.fromhex("3084000000"), bytes.fromhex("a084ffffffff"), bytes.fromhex("308400000005020101"), b"(&(cn=*)(!(sn=x)))",
          bytes.fromhex("0000000000"), bytes.fromhex("ff" * 6), bytes.fromhex("8000"), bytes.fromhex("020100")]
 TEXTS = ["", "a", "cn=admin,dc=example,dc=com", "Üser Näme", "名前", "x" * 7, "(paren)*\\", "uid=jdoe,ou=People,o=x",
-         " ", "\x00nul", "dc=é"]
+         " ", "\x00nul", "dc=é", "{node=ldap01} busy", "{0} {}", "100%s %d%%", "{", "}}", "%(x)s", "\r\nX-Injected: 1", "${jndi:ldap://x}"]
 MECHS = ["GSSAPI", "GSS-SPNEGO", "EXTERNAL", "DIGEST-MD5", "PLAIN", ""]
 EXT_OIDS = ["1.3.6.1.4.1.1466.20037", "1.3.6.1.4.1.4203.1.11.3", "1.3.6.1.4.1.4203.1.11.1", "1.2.3.4.5"]
 INT_OK = [0, 1, 2, 100, 127, 128, 255, 256, 1000, 32767, 32768, 65535, 65536, 16777215, 16777216, 2147483647, 0x1603, 0x160301,
@@ -434,6 +442,7 @@ class Gen:
 
     def __init__(self, rng, big=0.08, huge=0.0, odd_ints=False, customs=(), rich=True, bad_text=0.0):
         self.r = rng
+        self.mega = 0.0  # share of the "huge" lengths that are about 1 MiB
         self.odd_known = False  # set by byzantine peers only: known value-less controls carrying a value
         self.bad_text = bad_text  # probability of a str that cannot be encoded (lone surrogate): the send call must fail cleanly
         self.big = big
@@ -445,6 +454,8 @@ class Gen:
     def length(self):
         x = self.r.random()
         if x < self.huge:
+            if self.r.random() < self.mega:
+                return self.r.choice([1048575, 1048576, 1048577])
             return self.r.choice([65400, 65535, 65536, 65537, 70000])
         if x < self.huge + self.big:
             return self.r.choice(BOUNDARY_LENS[5:])
@@ -529,6 +540,9 @@ class Gen:
         kinds = ["Equality", "Substrings", "GreaterOrEqual", "LessOrEqual", "Present", "ApproxMatch", "ExtensibleMatch"]
         if "CustomFilter" in self.customs:
             kinds.append("CustomFilter")
+        edge_f = [c for c in self.customs if c.startswith("EdgeFilter")]
+        if edge_f and r.random() < 0.25:
+            return {"t": "EdgeFilter", "n": int(r.choice(sorted(edge_f))[len("EdgeFilter"):]), "value": self.text()}
         if depth < 4 and r.random() < (0.45 if depth == 0 else 0.3):
             t = r.choice(["And", "Or", "Not"])
             if t == "Not":
@@ -564,6 +578,10 @@ class Gen:
     def a_bind_any(self):
         r = self.r
         x = r.random()
+        edge_a = [c for c in self.customs if c.startswith("EdgeAuth")]
+        if edge_a and r.random() < 0.25:
+            return "bind", {"dn": self.text(), "auth": {"t": "EdgeAuth", "n": int(r.choice(sorted(edge_a))[len("EdgeAuth"):]), "token": self.blob()},
+                            "controls": self.controls()}
         if "CustomAuth" in self.customs and x < 0.2:
             return "bind", self.a_bind_custom()
         if x < 0.3:
